@@ -109,7 +109,8 @@ HasCommon(cf) == /\ HasCommonSuite(cf.cs, cf.ss) /\ HasCommonAlpn(cf.ca, cf.sa)
    the server holds *)
 CertOk(kind) == kind = "valid"
 (* the observable part of `Authentic' *)
-AuthenticObs(cf, resumed) == CertOk(cf.cert) \/ (cf.cpsk /\ resumed)
+\* (a resumption proves something only when the server holds the secret the client offered: cf.spsk)
+AuthenticObs(cf, resumed) == CertOk(cf.cert) \/ (cf.cpsk /\ cf.spsk /\ resumed)
 (* "report the same QUIC version, cipher suite, ALPN protocol and resumption status" *)
 SameResult(rc, rs) == /\ rc.version = rs.version /\ rc.cipher = rs.cipher
                       /\ rc.alpn = rs.alpn /\ rc.resumed = rs.resumed
